@@ -12,6 +12,7 @@ fn usage() -> ! {
 
 fn main() {
     run::install_panic_hook();
+    rvmc::sweep::install_crash_handler();
     let args: Vec<String> = std::env::args().collect();
     if args.len() < 2 {
         usage();
